@@ -111,8 +111,21 @@ static void edit_nonrepresentable(hwloc_topology_t b)
 static void edit_nonrepresentable1(hwloc_topology_t b)
 {
   struct hx h; hx_init(&h, b, &R);
-  unsigned kind = (unsigned)hv_below(&R, 10);
+  unsigned kind = (unsigned)hv_below(&R, 13);
   hwloc_obj_t o = hx_pick_obj(&h, 0);
+  if (kind >= 10) {
+    /* type-specific attributes and os_index are public fields (hwloc-annotate edits some of them): a diff cannot express such a change */
+    struct tv_view vw; tv_view_build(b, &vw, 0); hwloc_obj_t pick = NULL; unsigned seen = 0;
+    for (unsigned i = 0; i < vw.n; i++) { hwloc_obj_t q = vw.v[i].o; int ok = kind == 10 ? hwloc_obj_type_is_cache(q->type) : kind == 11 ? (q->type == HWLOC_OBJ_GROUP || q->type == HWLOC_OBJ_PCI_DEVICE || q->type == HWLOC_OBJ_OS_DEVICE || q->type == HWLOC_OBJ_BRIDGE) : (q->type == HWLOC_OBJ_CORE || q->type == HWLOC_OBJ_PACKAGE || q->type == HWLOC_OBJ_DIE || hwloc_obj_type_is_cache(q->type));
+      if (ok && hv_below(&R, ++seen) == 0) pick = q; }
+    tv_view_free(&vw);
+    if (!pick) return;
+    if (kind == 10) { unsigned f = (unsigned)hv_below(&R, 3); if (f == 0) pick->attr->cache.size += 4096; else if (f == 1) pick->attr->cache.linesize += 64; else pick->attr->cache.associativity += 1; hv_desc("  edit*: cache attribute %u of %s L%u changed\n", f, hwloc_obj_type_string(pick->type), pick->logical_index); }
+    else if (kind == 11) { if (pick->type == HWLOC_OBJ_GROUP) pick->attr->group.subkind += 1; else if (pick->type == HWLOC_OBJ_PCI_DEVICE) pick->attr->pcidev.device_id ^= 1; else if (pick->type == HWLOC_OBJ_OS_DEVICE) pick->attr->osdev.types ^= HWLOC_OBJ_OSDEV_GPU; else pick->attr->bridge.depth += 1; hv_desc("  edit*: type-specific attribute of %s L%u changed\n", hwloc_obj_type_string(pick->type), pick->logical_index); }
+    else { pick->os_index += 1000; hv_desc("  edit*: os_index of %s L%u changed\n", hwloc_obj_type_string(pick->type), pick->logical_index); }
+    n_nonrepr++; edit_mask |= 16384u << (kind - 10); hv_stat(kind == 10 ? "edits.cache_attr" : kind == 11 ? "edits.other_attr" : "edits.os_index", 1);
+    return;
+  }
   if (kind == 0) { hv_desc("  edit*: add info to %s L%u\n", hwloc_obj_type_string(o->type), o->logical_index); hwloc_obj_add_info(o, "Added", "x"); n_nonrepr++; edit_mask |= 16; }
   else if (kind == 1) { if (!o->infos.count) return; hv_desc("  edit*: remove infos named %s from %s L%u\n", o->infos.array[0].name, hwloc_obj_type_string(o->type), o->logical_index); char *nm = strdup(o->infos.array[0].name); hwloc_modify_infos(&o->infos, HWLOC_MODIFY_INFOS_OP_REMOVE, nm, NULL); free(nm); n_nonrepr++; edit_mask |= 32; }
   else if (kind == 2) { if (hwloc_topology_insert_misc_object(b, o, "diffmisc")) { hv_desc("  edit*: insert Misc below %s L%u\n", hwloc_obj_type_string(o->type), o->logical_index); n_nonrepr++; edit_mask |= 64; } }
